@@ -243,6 +243,7 @@ func (in *Interp) resetPath() {
 	in.loopPost = map[string]value{}
 	in.regexps = map[*value]string{}
 	in.clockLo, in.clockHi = nil, nil
+	in.sleepYields, in.freeYield = false, false
 	in.clockN = 0
 	in.mutexes = map[*value]*mutexState{}
 	in.raceReset()
